@@ -579,7 +579,7 @@ fn pres() -> impl Strategy<Value = Pres> {
 }
 
 pub fn run(ctx: &mut Ctx) {
-    ctx.rule = "option value trees (creation and request options, every optional member present/absent, descriptors, selection criteria, hints, attestation members, extensions with PRF inputs) rendered under generated presentations (each parsed through serde_json::from_str, from_reader and from_value, which must agree): each binary member as number array / base64url / base64url padded / base64 / base64 padded; timeouts and algorithm ids as number, numeric string, integral float, stringified float, exponent form; unknown members injected at every object level; unknown enumeration strings in scalars and lists; the allowList alias. Plus byte strings (encode/decode identity, every textual presentation), client data with generated extras (nested JSON, any key order) and unknown members, and credentials emitted by real ceremonies. Non-trivial = presentation differing from the canonical one in at least two members, a non-empty byte string, client data with extra/unknown members, an emitted credential pair; distinct by case.".into();
+    ctx.rule = "option value trees (creation and request options, every optional member present/absent, descriptors, selection criteria, hints, attestation members, extensions with PRF inputs) rendered under generated presentations (each parsed through serde_json::from_str, from_reader and from_value, which must agree): each binary member as number array / base64url / base64url padded / base64 / base64 padded; timeouts and algorithm ids as number, numeric string, integral float, stringified float, exponent form; unknown members injected at every object level; unknown enumeration strings in scalars and lists; the allowList alias. Plus byte strings (encode/decode identity, every textual presentation), client data with generated extras (nested JSON, any key order) and unknown members, and credentials emitted by real ceremonies. Since round 7 String::from(Bytes) is inverted by the strict base64url decoder. Non-trivial = presentation differing from the canonical one in at least two members, a non-empty byte string, client data with extra/unknown members, an emitted credential pair; distinct by case.".into();
     ctx.assumptions = vec![
         "parsed values are compared through their Debug rendering (the types have no PartialEq); per-credential PRF inputs carry at most one entry so that map order cannot differ".into(),
         "canonical form: unknown scalar enumeration strings are omitted (the member takes its default), unknown list entries and parameters with unassigned algorithm numbers are dropped, unknown credential types read as 'unknown'".into(),
